@@ -90,6 +90,44 @@ func c09Catalogue() []Shape {
 	return out
 }
 
+// Heavy single instructions.  A value that is tiny in memory but has 2^40
+// paths (a = [a, a], forty times: a directed acyclic graph, not a tree) is
+// handed to every operator and built-in.  Whatever walks it without looking
+// at the context never finishes in practice; the work clock (DESIGN 2.5)
+// makes that visible without waiting: the cancellation fires in the middle of
+// the instruction, and more than c09BWork further work units inside the same
+// instruction are "not stopped".
+const c09BWork = 200000 // work units (loop iterations / function entries of the value and built-in code) allowed after the instant
+
+var c09HeavyBuild = []struct{ name, text string }{
+	{"array-dag", "a = [1]; i = 0; while (i < 40) { a = [a, a]; i++; } "},
+	{"hash-dag", "a = {\"k\": 1}; i = 0; while (i < 40) { a = {\"k\": a, \"l\": a}; i++; } "},
+	{"mixed-dag", "a = [1]; i = 0; while (i < 40) { a = {\"k\": [a, a]}; i++; } "},
+}
+
+var c09HeavyOps = func() []struct{ name, text string } {
+	ops := []struct{ name, text string }{
+		{"==", "x = a == a;"}, {"!=", "x = a != a;"}, {"<", "x = a < a;"}, {"+", "x = a + a;"}, {"in", "x = a in a;"}, {"in-array", "x = 1 in a;"}, {"~=", "x = a ~= /x/;"},
+		{"hash-key", "x = {a: 1};"}, {"index-by", "x = {\"k\": 1}[a];"}, {"index", "x = a[0];"}, {"bang", "x = !a;"}, {"minus", "x = -a;"}, {"sqrt", "x = √a;"},
+		{"if", "if (a) { x = 1; }"}, {"ternary", "x = a ? 1 : 2;"}, {"foreach", "foreach v in a { x = 1; }"}, {"foreach-kv", "foreach k, v in a { x = 1; }"},
+		{"switch", "switch (a) { case 1 { x = 1; } default { x = 2; } }"}, {"case", "switch (1) { case a { x = 1; } default { x = 2; } }"},
+		{"range", "x = 1..a;"}, {"++", "a++;"}, {"+=", "a += a;"}, {"call-arg", "function f(p) { return 1; } x = f(a);"},
+	}
+	for _, b := range c08Builtins {
+		if b == "panic" || b == "print" || b == "printf" {
+			continue // (output of unbounded size: C08's memory exclusion)
+		}
+		ops = append(ops, struct{ name, text string }{b + "()", "x = " + b + "(a);"})
+		ops = append(ops, struct{ name, text string }{b + "(,)", "x = " + b + "(a, a);"})
+	}
+	ops = append(ops, struct{ name, text string }{"sprintf(%d)", "x = sprintf(\"%d\", a);"}, struct{ name, text string }{"sprintf(%v)", "x = sprintf(\"%v\", a);"},
+		struct{ name, text string }{"join(a,str)", "x = join(a, \",\");"}, struct{ name, text string }{"between", "x = between(a, a, a);"},
+		struct{ name, text string }{"split", "x = split(\"a\", a);"}, struct{ name, text string }{"replace", "x = replace(\"a\", a, a);"})
+	return ops
+}()
+
+var c09HeavyT = []int64{1, 50, 5000}
+
 type c09 struct {
 	tier   string
 	shapes []Shape
@@ -126,6 +164,13 @@ func (p *c09) Enumerate(tier string) [][]int32 {
 	if tier == "thorough" {
 		for si := range p.shapes {
 			out = append(out, []int32{2, int32(si), int32(si % 2)})
+		}
+	}
+	for b := range c09HeavyBuild {
+		for op := range c09HeavyOps {
+			for t := range c09HeavyT {
+				out = append(out, []int32{3, int32(b), int32(op), int32((b + op) % 2), int32((op + t) % 2), int32(t)})
+			}
 		}
 	}
 	for si, s := range p.shapes {
@@ -195,6 +240,83 @@ func (p *c09) realTimer(c *verifsim.Chooser, st *Stats, render bool) *Outcome {
 	return o
 }
 
+// heavy: see c09HeavyBuild.
+func (p *c09) heavy(c *verifsim.Chooser, st *Stats, render bool) *Outcome {
+	o := &Outcome{}
+	b := c09HeavyBuild[c.Intn(len(c09HeavyBuild))]
+	op := c09HeavyOps[c.Intn(len(c09HeavyOps))]
+	opt := c.Intn(2) == 0
+	useRun := c.Intn(2) == 1
+	T := c09HeavyT[c.Intn(len(c09HeavyT))]
+	text := b.text + op.text + " return 1;"
+	family := "heavy-instruction " + b.name + " " + op.name
+	currentDesc.Store(family)
+	o.Digest.Str(text)
+	o.Digest.U64(uint64(T))
+
+	ctx := verifsim.NewSimContext(-1)
+	ctx.HardCap = 4000
+	ctx.PanicAfter = c09B
+	ctx.HeavyFireAt = T
+	ctx.WorkCapAfter = c09BWork
+	h := newHost(ctx)
+	h.TotalBudget = 4000
+	e := evalfilter.New(text)
+	h.install(e)
+	e.SetContext(ctx)
+	if err, esc := doPrepare(e, opt); err != nil || esc != nil {
+		st.probe("heavy-prepare-failed")
+		return o
+	}
+	var r Result
+	under(ctx, func() {
+		if useRun {
+			r = doRun(e, nil)
+		} else {
+			r = doExecute(e, nil)
+		}
+	})
+	o.Ticks = ctx.Clock
+	o.Digest.Str(r.String())
+	o.Digest.U64(uint64(ctx.Work))
+	if render {
+		o.Sample = map[string]interface{}{"script": text, "family": family, "optimizer": opt, "front_end": map[bool]string{true: "Run", false: "Execute"}[useRun],
+			"plan": fmt.Sprintf("cancel when one instruction has done %d work units", T), "result": r.String(), "ticks": ctx.Ticks, "work_units": ctx.Work,
+			"most_work_in_one_instruction": ctx.MaxInInstr, "fired_inside_instruction": ctx.FiredInWork, "work_after_cancel": ctx.WorkAfter, "ticks_after_cancel": ctx.TicksAfter}
+	}
+	st.max("work_in_one_instruction", ctx.MaxInInstr)
+	if r.Escaped != nil && !ctx.RunawayWork {
+		o.violate("C09/escaped-panic", family, "panic crossed %s: %s", r.Escaped.Entry, r.Escaped.Value)
+		return o
+	}
+	if !ctx.FiredInWork {
+		// no instruction of this script did T units of work: nothing to cancel
+		st.probe("heavy-not-heavy")
+		if ctx.HitCap {
+			o.violate("C09/disturbed", family, "the script did not end within %d instructions", ctx.HardCap)
+		}
+		return o
+	}
+	o.Nontrivial = true
+	st.fault("cancel-inside-instruction")
+	st.max("work_after_cancel", ctx.WorkAfter)
+	switch {
+	case ctx.RunawayWork:
+		o.violate("C09/not-stopped-inside-instruction", runawayWalk(ctx.RunawayStack), "(%s) the context was cancelled while one instruction was at work (%d units done); %d work units later the same instruction was still running (interrupted by the simulator); script: %s", family, T, ctx.WorkAfter, text)
+	case ctx.Runaway || ctx.TicksAfter > c09B:
+		o.violate("C09/late", family, "%d ticks after the cancellation instant", ctx.TicksAfter)
+	case !r.Failed:
+		// the instruction completed and the script ended before the next
+		// look at the context: only legitimate if it really was at its end
+		if ctx.TicksAfter > 3 {
+			o.violate("C09/not-reported", family, "cancelled inside an instruction, %d more instructions ran and no error was returned: %s", ctx.TicksAfter, r.String())
+		} else {
+			st.probe("cancelled-in-last-instruction")
+		}
+	}
+	return o
+}
+
 func (p *c09) RandomRuns(tier string) int {
 	if tier == "thorough" {
 		return 3000000
@@ -244,6 +366,9 @@ func (p *c09) Run(c *verifsim.Chooser, st *Stats, render bool) *Outcome {
 	// modes: 0 catalogue shape, 1 generated script, 2 real timer (explicit
 	// traces of the thorough tier only; one random draw in 64 otherwise)
 	mode := c.Intn(64)
+	if mode == 3 || mode == 62 {
+		return p.heavy(c, st, render)
+	}
 	if mode == 2 || mode == 63 {
 		if p.tier == "thorough" {
 			return p.realTimer(c, st, render)
@@ -549,4 +674,37 @@ func stripReturns(body string) string {
 		}
 	}
 	return sb.String()
+}
+
+// runawayWalk names the walk that did not end: the library functions that
+// occur at least three times among the innermost frames (a recursion), or
+// else the innermost library function (a loop).
+func runawayWalk(stack []string) string {
+	const mod = "github.com/skx/evalfilter/v2"
+	count := map[string]int{}
+	first := ""
+	for _, f := range stack {
+		if !strings.HasPrefix(f, mod) || strings.Contains(f, "/verifsim.") {
+			continue
+		}
+		name := strings.TrimPrefix(f, mod)
+		if i := strings.Index(name, ".func"); i > 0 {
+			name = name[:i] // (closures count as their function)
+		}
+		if first == "" {
+			first = name
+		}
+		count[name]++
+	}
+	var rec []string
+	for n, k := range count {
+		if k >= 3 {
+			rec = append(rec, n)
+		}
+	}
+	if len(rec) == 0 {
+		return "in " + first
+	}
+	sortStrings(rec)
+	return "walk " + strings.Join(rec, " + ")
 }
